@@ -10,12 +10,13 @@ from . import c04
 PROP_ID = "C20"
 LEVEL = "exploration"
 NAMES = ["foo", "bar", "x", "a b", "name", "_priv", "é", "size2", "kids", "Target", "get", "e", "tar", "targets", "_target", "par", "parents", "child", "childre", "__meta__", "__rev__"]
+CLASS_LEVEL_NAMES = ["separator", "icon"]
 assert not any(n in dir(NodeMixin) or n in ("parent", "children", "target") for n in NAMES)
 RULE = (
     "cases = histories over a growing universe: create a plain node (Node/AnyNode with keyword attributes, or a Node subclass whose attribute 'bar' is a property with a setter), create a link (SymlinkNode with "
     "constructor keyword attributes, or a SymlinkNodeMixin subclass that keeps `target` in the instance dictionary, in a slot, behind a read-only property or as a class-level attribute) to any existing node - plain node or link, same or other tree -, "
     "structural calls (parent/children assignment, children deletion) on links and targets, attribute writes through links and on targets, "
-    "for attribute names from a pool of 21 (none of them part of the node API; several are substrings or extensions of 'parent', 'children', 'target'). After every step the whole table node x name read through "
+    "for attribute names from a pool of 21 (none of them part of the node API; several are substrings or extensions of 'parent', 'children', 'target'). Assignments to two names that exist on the classes themselves ('separator', and 'icon', a class-level default of the user link classes) are judged on the write side only: stored on the target, nothing kept on the link. After every step the whole table node x name read through "
     "getattr is compared with an attribute-store model (value or AttributeError) and the whole forest with the structural model of C02. "
     "Systematic part: all short scripts create-link-chain x write x read. Non-trivial = history with a link to a link, or a write through a "
     "link followed by a structural call on that link or its target. Histories hashed for distinctness."
@@ -56,6 +57,7 @@ class World:
         self.target = []  # label of direct target for links
         self.store = []  # attribute dict for plain nodes
         self.state = []  # structural model
+        self.api_store = []  # values assigned to names that exist on the classes (plain nodes only)
 
     def add(self, node, kind, target=None, store=None):
         self.rec.labels.add(node)
@@ -64,6 +66,7 @@ class World:
         self.target.append(target)
         self.store.append(store)
         self.state.append([None, []])
+        self.api_store.append({})
         return len(self.nodes) - 1
 
     def resolve(self, label):
@@ -90,6 +93,18 @@ def check_table(world, ctx):
         if world.kind[label] == "link":
             if node.target is not world.nodes[world.target[label]]:
                 raise Violation("target-attribute", "%s: link %d no longer points at its target" % (ctx, label))
+    for label, node in enumerate(world.nodes):
+        # names that also exist on the link's class (API names used as data, class-level defaults of a link subclass):
+        # the assignment is stored on the target all the same and nothing is kept on the link
+        if world.kind[label] == "link":
+            for name in CLASS_LEVEL_NAMES:
+                if name in vars(node):
+                    raise Violation("assignment-kept-on-link", "%s: link %d keeps %r in its own dictionary: %r" % (ctx, label, name, vars(node)[name]))
+        else:
+            for name, value in world.api_store[label].items():
+                got = vars(node).get(name, "<nothing stored>")
+                if not (type(got) is type(value) and got == value):
+                    raise Violation("assignment-not-on-target", "%s: node %d should hold %s=%r (assigned directly or through a link), holds %r" % (ctx, label, name, value, got))
     for node in world.nodes:
         # the navigation attributes of every node - links included - follow its OWN position (definitions of C04)
         c04.check_node(node, world.rec.labels)
@@ -137,6 +152,12 @@ def check_case(case, acc):
             world.store[world.resolve(tlabel)].update(kwargs)
             if world.kind[tlabel] == "link":
                 link_to_link = True
+        elif kind == "set_api":
+            if n == 0:
+                continue
+            label = step[1] % n
+            setattr(world.nodes[label], step[2], step[3])
+            world.api_store[world.resolve(label)][step[2]] = step[3]
         elif kind == "set":
             if n == 0:
                 continue
@@ -189,6 +210,8 @@ def random_cases(draw):
         st.tuples(st.just("new_link"), st.sampled_from(["SymlinkNode"] + nodes.LINK_KINDS), IDX, ATTRS).map(list),
         st.tuples(st.just("set"), IDX, st.sampled_from(NAMES), VALUE).map(list),
         st.tuples(st.just("set"), IDX, st.sampled_from(NAMES), VALUE).map(list),
+        st.tuples(st.just("set_api"), IDX, st.just("separator"), st.sampled_from(["|", "::", "/"])).map(list),
+        st.tuples(st.just("set_api"), IDX, st.just("icon"), VALUE).map(list),
         st.tuples(st.just("parent"), IDX, st.one_of(st.none(), IDX)).map(list),
         st.tuples(st.just("children"), IDX, st.lists(IDX, max_size=3)).map(list),
         st.tuples(st.just("del"), IDX).map(list),
